@@ -648,7 +648,7 @@ func C04(e *Env) {
 
 	disk := c04Disk(e, root, rng)
 	var streams []hcase
-	for i := 0; i < e.Pick(2000, 40000); i++ {
+	for i := 0; i < e.Pick(4000, 60000); i++ {
 		n := 1 + rng.Intn(200)
 		if rng.Intn(3) == 0 {
 			// start with a valid opcode so that the tail is parsed
